@@ -88,6 +88,14 @@ class SList:
         raise OutOfSubset('list index %s is not a tracked slot' % idx)
 
 
+class AList:
+    """Python list of INTEGERS (node sequences) of symbolic length: a z3 array plus a length.  Immutable value (append builds a new
+    one bound to the same name); binding it to a second name is refused like for SList."""
+
+    def __init__(self, term, length):
+        self.term, self.length = term, length
+
+
 class Row:
     """lazy 1-D value: length n and element function (z3 Int -> value)."""
 
@@ -257,6 +265,7 @@ degsumT = z3.Function('degsumT', A2R, A1I, INT, INT, REAL)       # degsumT(W, ci
 frow = z3.Function('frow', INT, INT, INT)        # frow(i, ncols), fcol(i, ncols): cell denoted by the flat (row-major) position i
 fcol = z3.Function('fcol', INT, INT, INT)
 fvalid = z3.Function('fvalid', INT, INT, INT, BOOL)  # fvalid(i, nrows, ncols): i is a valid flat position (0 <= i < nrows*ncols)
+pathsum = z3.Function('pathsum', A2R, A1I, INT, REAL)   # pathsum(M, p, k) = sum_{t < k-1} M[p[t]][p[t+1]]  (k nodes, k-1 steps)
 agg = z3.Function('agg', A2R, A1I, INT, INT, INT, REAL)          # agg(W, ci, a, b, n) = sum_{x,y<n, ci[x]=a+1, ci[y]=b+1} W[x][y]
 tsum = z3.Function('tsum', A2R, INT, REAL)                       # sum of all entries
 trace1 = z3.Function('trace1', A2R, INT, REAL)
@@ -654,6 +663,14 @@ class Engine:
                     r = (other is None)
                 return (z3.Not(r) if is_z3(r) else (not r)) if isinstance(op, ast.IsNot) else r
             raise OutOfSubset('is')
+        if any(isinstance(t_, Opaque) and t_.kind == 'maybe_none' for t_ in (a, b)):
+            # ordering / equality with a value that may be None: a TypeError in Python if it is None (safety obligation), else its value
+            def unwrap(t_):
+                if isinstance(t_, Opaque) and t_.kind == 'maybe_none':
+                    self.oblige(st, 'notnone/%s' % getattr(t_, 'name', 'value'), z3.Not(t_.isnone), kind='safety')
+                    return t_.val
+                return t_
+            a, b = unwrap(a), unwrap(b)
         if isinstance(op, ast.Eq) and isinstance(a, Ref) and st.heap[a.oid].ndim == 1 and st.heap[a.oid].esort == INT and not isinstance(b, (Ref, Row, Mat, TupleV)):
             return self.np.eq_mask(self, st, a, b)
         if isinstance(a, (Ref, Row, Mat)) or isinstance(b, (Ref, Row, Mat)):
@@ -795,6 +812,15 @@ class Engine:
             idx = to_z3(self.ev(node.slice, st), INT)
             self.oblige(st, 'bounds/range:%s' % ast.unparse(node)[:24], z3.And(idx >= 0, idx < ln), kind='safety')
             return z3.simplify(lo + idx) if step == 1 else z3.simplify(lo - idx)
+        if isinstance(base, AList):
+            if isinstance(node.slice, ast.Slice):
+                raise OutOfSubset('slice of a list')
+            raw = self.ev(node.slice, st)
+            if isinstance(raw, int) and not isinstance(raw, bool) and raw < 0:
+                raw = z3.simplify(to_z3(base.length, INT) + raw)
+            idx = to_z3(raw, INT)
+            self.oblige(st, 'bounds/list:%s' % ast.unparse(node)[:24], z3.And(idx >= 0, idx < to_z3(base.length, INT)), kind='safety')
+            return z3.Select(base.term, idx)
         if isinstance(base, SList):
             if isinstance(node.slice, ast.Slice):
                 raise OutOfSubset('slice of a list')
@@ -807,6 +833,16 @@ class Engine:
         return self.np.getitem(self, st, base, node.slice)
 
     def ev_Call(self, node, st):
+        if isinstance(node.func, ast.Attribute) and isinstance(node.func.value, ast.Name) and isinstance(st.env.get(node.func.value.id), AList):
+            lst = st.env[node.func.value.id]
+            if node.func.attr != 'append' or len(node.args) != 1 or node.keywords:
+                raise OutOfSubset('list method %s' % ast.unparse(node)[:40])
+            v = self.ev(node.args[0], st)
+            if not ((is_z3(v) and v.sort() == INT) or (isinstance(v, int) and not isinstance(v, bool))):
+                raise OutOfSubset('non-integer element appended to a list of integers')
+            st.ghost['_append_last'] = (lst, to_z3(v, INT))
+            st.env[node.func.value.id] = AList(z3.Store(lst.term, to_z3(lst.length, INT), to_z3(v, INT)), z3.simplify(to_z3(lst.length, INT) + 1))
+            return None
         if isinstance(node.func, ast.Attribute) and isinstance(node.func.value, ast.Name) and isinstance(st.env.get(node.func.value.id), SList):
             lst = st.env[node.func.value.id]
             if node.func.attr != 'append' or len(node.args) != 1 or node.keywords:
@@ -841,7 +877,7 @@ class Engine:
 
     def builtin(self, st, name, args, kw, node):
         if name == 'len':
-            if isinstance(args[0], SList):
+            if isinstance(args[0], (SList, AList)):
                 return args[0].length
             return self.np.shape(self, st, args[0])[0]
         if name == 'range':
@@ -1180,8 +1216,14 @@ class Engine:
                 if not (e is None or isinstance(e, Ref) or is_z3(e) or isinstance(e, (int, float, fractions.Fraction))):
                     raise OutOfSubset('list element %r' % (e,))
                 elems.append(e)
-            val = SList(len(elems), [(z3.IntVal(k_), e) for k_, e in enumerate(elems)])
-        if isinstance(val, SList) and isinstance(node.value, (ast.Name, ast.Subscript, ast.Attribute)):
+            if all((is_z3(e) and e.sort() == INT) or (isinstance(e, int) and not isinstance(e, bool)) for e in elems):
+                t_ = fresh('lst', A1I)          # a list of integers: array model, every element addressable
+                for k_, e in enumerate(elems):
+                    t_ = z3.Store(t_, k_, to_z3(e, INT))
+                val = AList(t_, z3.IntVal(len(elems)))
+            else:
+                val = SList(len(elems), [(z3.IntVal(k_), e) for k_, e in enumerate(elems)])
+        if isinstance(val, (SList, AList)) and isinstance(node.value, (ast.Name, ast.Subscript, ast.Attribute)):
             raise OutOfSubset('a list object is bound to a second name: %s' % ast.unparse(node)[:60])
         if isinstance(val, Fork):
             out = []
@@ -1303,6 +1345,8 @@ class Engine:
                 return x
             if x is None and y is None:
                 return None
+            if isinstance(x, AList) and isinstance(y, AList):
+                return AList(z3.If(c, x.term, y.term), z3.If(c, to_z3(x.length, INT), to_z3(y.length, INT)))
             raise _NoMerge()
         try:
             for table in ('env', 'ghost'):
@@ -1480,6 +1524,11 @@ class Engine:
                 continue
             if isinstance(v, SList):
                 later.append(nm)
+                continue
+            if isinstance(v, AList):
+                ln_ = fresh('hv_len_' + nm, INT)
+                st.pc.append(ln_ >= 0)
+                st.env[nm] = AList(fresh('hv_' + nm, A1I), ln_)
                 continue
             if is_z3(v):
                 st.env[nm] = fresh('hv_' + nm, v.sort())
@@ -2348,6 +2397,42 @@ def _sb_lemma_ext_B(eng, st, node):
     return z3.Implies(hyp, concl)
 
 
+def _alist(v):
+    if not isinstance(v, AList):
+        raise ContractError('list of integers expected')
+    return v
+
+
+def _sb_pathsum(eng, st, node):
+    """pathsum(M, lst): the sum of M along the consecutive pairs of the node list lst."""
+    M = _term2(eng, st, eng.ev(node.args[0], st))
+    l_ = _alist(eng.ev(node.args[1], st))
+    return pathsum(M, l_.term, to_z3(l_.length, INT))
+
+
+def _sb_lemma_pathsum(eng, st, node):
+    """DEFINITION (Lean: pathsum_one, pathsum_append): a one-node path has sum 0; appending node v to a path of k >= 1 nodes adds
+    M[last][v] and leaves the sum of the first k nodes unchanged.  lemma_pathsum(M, before, v): `before` is the list before the append."""
+    M = _term2(eng, st, eng.ev(node.args[0], st))
+    l_ = _alist(eng.ev(node.args[1], st))
+    v = to_z3(eng.ev(node.args[2], st), INT)
+    p, k = l_.term, to_z3(l_.length, INT)
+    return z3.And(pathsum(M, p, z3.IntVal(1)) == 0,
+                  z3.Implies(k >= 1, pathsum(M, z3.Store(p, k, v), k + 1) == pathsum(M, p, k) + z3.Select(z3.Select(M, z3.Select(p, k - 1)), v)))
+
+
+def _sb_lemma_pathsum_append(eng, st, node):
+    """DEFINITION (Lean: pathsum_append), instantiated for the most recent `lst.append(v)` whatever its operand is: with p the list of k >= 1
+    nodes before the append, pathsum(M, p ++ [v]) == pathsum(M, p) + M[p[k-1]][v].  lemma_pathsum_append(M)."""
+    M = _term2(eng, st, eng.ev(node.args[0], st))
+    last = st.ghost.get('_append_last')
+    if last is None:
+        raise ContractError('no append to a list of integers seen')
+    l_, v = last
+    p, k = l_.term, to_z3(l_.length, INT)
+    return z3.Implies(k >= 1, pathsum(M, z3.Store(p, k, v), k + 1) == pathsum(M, p, k) + z3.Select(z3.Select(M, z3.Select(p, k - 1)), v))
+
+
 def _sb_lemma_agg_symm(eng, st, node):
     """LEMMA (Lean: agg_symm): the aggregate of a symmetric matrix is symmetric.  lemma_agg_symm(W, c, n)."""
     W = _term2(eng, st, eng.ev(node.args[0], st))
@@ -2682,7 +2767,7 @@ SPEC_BUILTINS = {
     'dot2': _sb_dot2, 'isperm': _sb_isperm, 'same_object': _sb_same_object, 'unchanged': _sb_unchanged,
     'snapshot': _sb_snapshot, 'argref': _sb_argref, 'lam1': _sb_lam1, 'KCf': _sb_KCf, 'KNf': _sb_KNf, 'result_is_empty': _sb_result_is_empty, 'hopsint': _sb_hopsint, 'lam2': _sb_lam2, 'unique_witness': _sb_unique_witness, 'member': _sb_member, 'dset': _sb_dset(dset), 'rset': _sb_dset(rset), 'wset': _sb_dset(wset), 'cntb': _sb_cntb,
     'modsum': _mk_mod(modsum, 3), 'modsumT': _mk_mod(modsumT, 3), 'degsum': _mk_mod(degsum, 2), 'degsumT': _mk_mod(degsumT, 2), 'agg': _mk_mod(agg, 3),
-    'Qmod': _sb_Qmod, 'walk': _sb_walk, 'isint': (lambda eng, st, node: z3.IsInt(to_z3(eng.ev(node.args[0], st), REAL))), 'sdist': _sb_sdist, 'lemma_walks': _sb_lemma_walks, 'Qrawg': _sb_Qrawg, 'umul': _sb_umul, 'lemma_umul_linear': _sb_lemma_umul_linear, 'QrawB': _mk_mod(QrawB, 1), 'tsum': _mk_specfn(tsum, 1), 'csum': _mk_specfn(csum, 2), 'lemma_modularity': _sb_lemma_modularity, 'lemma_knm_sums': _sb_lemma_knm_sums, 'lemma_relabel': _sb_lemma_relabel, 'lemma_relabel_g': _sb_lemma_relabel_g, 'lemma_agg_compose': _sb_lemma_agg_compose, 'lemma_ext_B': _sb_lemma_ext_B, 'lemma_Q_from_kernel': _sb_lemma_Q_from_kernel, 'lemma_QrawB_def': _sb_lemma_QrawB_def, 'lemma_trace_agg': _sb_lemma_trace_agg, 'lemma_relabel_B': _sb_lemma_relabel_B, 'lemma_agg_compose_B': _sb_lemma_agg_compose_B, 'lemma_Qrawg_def': _sb_lemma_Qrawg_def, 'lemma_agg_compose_g': _sb_lemma_agg_compose_g, 'lemma_qg_from_aggregate': _sb_lemma_qg_from_aggregate, 'lemma_flat_count': _sb_lemma_flat_count, 'unique_count': (lambda eng, st, node: st.ghost['unique_count_last']), 'rounds_to': _sb_rounds_to, 'where_index': _sb_where_index, 'argsort_inverse': _sb_argsort_inverse, 'exists': _sb_exists, 'lemma_tsum_add': _sb_lemma_tsum_add, 'lemma_tsum_int': _sb_lemma_tsum_int, 'lemma_full_offdiag': _sb_lemma_full_offdiag, 'flat_store_rows': (lambda eng, st, node: st.ghost['_flat_store'][0]), 'flat_store_cols': (lambda eng, st, node: st.ghost['_flat_store'][1]), 'flat_store_len': (lambda eng, st, node: st.ghost['_flat_store'][2]), 'lemma_tsum_plus_transpose': _sb_lemma_tsum_plus_transpose, 'lemma_image_count': _sb_lemma_image_count,
+    'Qmod': _sb_Qmod, 'walk': _sb_walk, 'isint': (lambda eng, st, node: z3.IsInt(to_z3(eng.ev(node.args[0], st), REAL))), 'sdist': _sb_sdist, 'lemma_walks': _sb_lemma_walks, 'Qrawg': _sb_Qrawg, 'umul': _sb_umul, 'lemma_umul_linear': _sb_lemma_umul_linear, 'QrawB': _mk_mod(QrawB, 1), 'tsum': _mk_specfn(tsum, 1), 'csum': _mk_specfn(csum, 2), 'lemma_modularity': _sb_lemma_modularity, 'lemma_knm_sums': _sb_lemma_knm_sums, 'lemma_relabel': _sb_lemma_relabel, 'lemma_relabel_g': _sb_lemma_relabel_g, 'lemma_agg_compose': _sb_lemma_agg_compose, 'pathsum': _sb_pathsum, 'lemma_pathsum': _sb_lemma_pathsum, 'lemma_pathsum_append': _sb_lemma_pathsum_append, 'lemma_ext_B': _sb_lemma_ext_B, 'lemma_Q_from_kernel': _sb_lemma_Q_from_kernel, 'lemma_QrawB_def': _sb_lemma_QrawB_def, 'lemma_trace_agg': _sb_lemma_trace_agg, 'lemma_relabel_B': _sb_lemma_relabel_B, 'lemma_agg_compose_B': _sb_lemma_agg_compose_B, 'lemma_Qrawg_def': _sb_lemma_Qrawg_def, 'lemma_agg_compose_g': _sb_lemma_agg_compose_g, 'lemma_qg_from_aggregate': _sb_lemma_qg_from_aggregate, 'lemma_flat_count': _sb_lemma_flat_count, 'unique_count': (lambda eng, st, node: st.ghost['unique_count_last']), 'rounds_to': _sb_rounds_to, 'where_index': _sb_where_index, 'argsort_inverse': _sb_argsort_inverse, 'exists': _sb_exists, 'lemma_tsum_add': _sb_lemma_tsum_add, 'lemma_tsum_int': _sb_lemma_tsum_int, 'lemma_full_offdiag': _sb_lemma_full_offdiag, 'flat_store_rows': (lambda eng, st, node: st.ghost['_flat_store'][0]), 'flat_store_cols': (lambda eng, st, node: st.ghost['_flat_store'][1]), 'flat_store_len': (lambda eng, st, node: st.ghost['_flat_store'][2]), 'lemma_tsum_plus_transpose': _sb_lemma_tsum_plus_transpose, 'lemma_image_count': _sb_lemma_image_count,
     'frow': (lambda eng, st, node: frow(to_z3(eng.ev(node.args[0], st), INT), to_z3(eng.ev(node.args[1], st), INT))), 'fcol': (lambda eng, st, node: fcol(to_z3(eng.ev(node.args[0], st), INT), to_z3(eng.ev(node.args[1], st), INT))), 'lemma_agg_symm': _sb_lemma_agg_symm, 'lemma_agg_identity': _sb_lemma_agg_identity, 'lemma_q_from_aggregate': _sb_lemma_q_from_aggregate,
     'lemma_masked_degree': _sb_lemma_masked_degree, 'lemma_degree_monotone': _sb_lemma_degree_monotone, 'result': _sb_result, 'raised': _sb_raised, 'shape_is': _sb_shape_is,
 }
